@@ -1223,7 +1223,10 @@ impl<'a> Parser<'a> {
             if local.depth.unwrap() <= scope_depth {
                 break;
             }
-            let opcode = if local.is_captured {
+            // An exit that first runs finally blocks (`local_count` is given) runs code that is
+            // compiled later than this statement: whether that code captures the local is not
+            // known yet.
+            let opcode = if local.is_captured || local_count.is_some() {
                 OpCode::CloseUpvalue
             } else {
                 OpCode::Pop
